@@ -126,7 +126,8 @@ PROPS = {
     ),
     "C02": dict(
         module="Prom.Props.C02",
-        areas=[dict(area="chist", quick=1500, thorough=80000, classes=["snapshot-not-a-cut", "collect-stuck", "harness-panic"])],
+        areas=[dict(area="chist", quick=1500, thorough=80000, classes=["snapshot-not-a-cut", "collect-stuck", "harness-panic"]),
+               dict(area="hist", quick=500, thorough=20000)],
         rule="case = 2-4 real threads (observers, local-histogram batch flushers, 1-3 collectors incl. get_sample_count / get_sample_sum) x 1-3 calls on one Histogram with 1-3 buckets under the deterministic scheduler "
              "(up to 1 spurious compare-exchange failure; values incl. negative ones); the trace of every atomic / lock operation is replayed by the Lean machine; oracle: each returned snapshot = stats of the observations whose claim precedes that collector's flip in the trace; "
              "non-trivial = at least one collect and one observation/flush in the program; distinct by (program, schedule seed)",
@@ -136,14 +137,17 @@ PROPS = {
     "C03": dict(
         module="Prom.Props.C03",
         areas=[dict(area="chist", quick=1500, thorough=80000, classes=["observations-not-conserved", "snapshot-not-a-cut", "collect-stuck", "harness-panic"]),
-               dict(area="hist", quick=500, thorough=20000)],
+               dict(area="hist", quick=500, thorough=20000),
+               dict(area="local", quick=600, thorough=20000, classes=["histogram-handover", "histogram-pending", "harness-panic"], mask=[(only_prefix("count="), None)])],
         rule="as C02, with histories of up to 3 collections per collector thread and several collector threads; after all threads finished a further collect must return exactly all observations and get_sample_count / get_sample_sum must agree; "
              "a run that does not finish (a collect waiting forever) is a failure; plus sequential observe/flush/collect histories of the `hist` area",
         trusted=CONC_TB + ["as C02"],
     ),
     "C17": dict(
         module="Prom.Props.C17",
-        areas=[dict(area="fall", quick=4000, thorough=150000)],
+        areas=[dict(area="fall", quick=4000, thorough=150000),
+               dict(area="reg", quick=600, thorough=20000, classes=["admission-wrong", "unregister-wrong", "harness-panic"],
+                    mask=[(lambda x: "ok" if x == "ok" else ("err" if x.startswith("err:") else "-"), None)])],
         rule="case = one call of a Result-returning API under catch_unwind: histogram constructors over adversarial bucket lists, linear/exponential_buckets over every f64 class and counts 0-6, "
              "all 11 constructors over adversarial names, get_metric_with_label_values / get_metric_with / remove_label_values / remove with cardinalities 0-5 and wrong names, Registry::new_custom, "
              "TextEncoder on strings with multi-byte characters next to escaped ones, both encoders on hand-built families of every MetricType (empty name, no samples, mismatching value slots, failing writer); "
@@ -161,7 +165,8 @@ PROPS = {
     ),
     "C12": dict(
         module="Prom.Props.C12",
-        areas=[dict(area="local", quick=1500, thorough=60000)],
+        areas=[dict(area="local", quick=1500, thorough=60000),
+               dict(area="chist", quick=600, thorough=30000, classes=["observations-not-conserved", "snapshot-not-a-cut", "collect-stuck", "harness-panic"])],
         rule="case = one world (shared counter / int counter with local handles; shared histogram with local histograms; counter / int counter / histogram vector with local vectors) "
              "+ 6-28 operations (local update, flush, reset/clear, clone, drop, remove_label_values with pending data, direct update, shared reset, read-back); "
              "non-trivial = at least two flushes/drops in the history; distinct by request text",
